@@ -282,6 +282,20 @@ func (g *docGen) selection(t *GType, depth int, ind string, sc *scope, inFrag bo
 			"__schema { queryType { name } directives { name } }",
 		}) + "\n")
 	}
+	if t.Name == g.s.Query && r.Chance(1, 8) && g.nfrag < 6 {
+		// the shape of the standard introspection query: fragments on __Type
+		// spread below __schema / __type
+		g.nfrag++
+		ft, tr := "FullType"+strconv.Itoa(g.nfrag), "TypeRef"+strconv.Itoa(g.nfrag)
+		g.frags = append(g.frags,
+			"fragment "+ft+" on __Type {\n  kind\n  name\n  fields(includeDeprecated: true) {\n    name\n    type {\n      ..."+tr+"\n    }\n  }\n  interfaces {\n    ..."+tr+"\n  }\n}\n",
+			"fragment "+tr+" on __Type {\n  kind\n  name\n  ofType {\n    kind\n    name\n  }\n}\n")
+		if r.Chance(1, 2) {
+			b.WriteString(ind + "__schema {\n" + ind + "  types {\n" + ind + "    ..." + ft + "\n" + ind + "  }\n" + ind + "}\n")
+		} else {
+			b.WriteString(ind + "__type(name: \"" + Pick(r, g.s.Types).Name + "\") {\n" + ind + "  ..." + ft + "\n" + ind + "}\n")
+		}
+	}
 	if t.Name == g.s.Query && g.fault("deep-introspection", 25) {
 		b.WriteString(ind + "__schema { types { fields { type { fields { type { fields { type { fields { type { name } } } } } } } } } }\n")
 	}
